@@ -39,6 +39,11 @@ pub const SITES: &[(&str, usize, &str)] = &[
     ("random_choices-zero", 3, "([1, 2, 3].random_choices(0).len() + {K})"),
     ("sample-counts", 3, "([1, 2, 3].sample(2, [1, 1, 1]).len() + {K} - 2)"),
     ("regex", 4, "if(regex(\"a+b\").search(\"xaab\").has_value(), {K}, {K})"),
+    ("regex-long-pattern", 4, "if(regex(\"a+b[0-9]*(x|y)?z{0,3}[^q]\").search(\"xaab12yzz!\").has_value(), {K}, {K})"),
+    ("display-str", 1, "(display(\"7777\").len() + {K} - 4)"),
+    ("display-str-prefix", 1, "(display(\"7777\", \"\").len() + {K} - 4)"),
+    ("display-bool-as-int", 1, "if(display({K} > 0 - 1), {K}, {K})"),
+    ("debug-str", 2, "(debug(\"7777\").len() + {K} - 4)"),
     ("sleep", 5, "sleep(seconds(0.25), {K})"),
     ("std_sleep", 5, "__std_sleep(0.5, {K})"),
 ];
@@ -339,8 +344,9 @@ fn seam_invariants(sc: &Scenario, r: &RunResult) -> Vec<(String, String)> {
         v.push(("slept although SLEEP is forbidden".to_string(), format!("{} sleeps", c.sleeps)));
     }
     let text = String::from_utf8_lossy(&r.out).to_string();
-    let digit_lines = text.lines().filter(|l| !l.is_empty() && l.chars().all(|ch| ch.is_ascii_digit())).count();
-    let other_lines = text.lines().filter(|l| !l.is_empty() && !l.chars().all(|ch| ch.is_ascii_digit())).count();
+    let is_display_line = |l: &str| l.chars().all(|ch| ch.is_ascii_digit()) || l == "true" || l == "false";
+    let digit_lines = text.lines().filter(|l| !l.is_empty() && is_display_line(l)).count();
+    let other_lines = text.lines().filter(|l| !l.is_empty() && !is_display_line(l)).count();
     if !is_on(&sc.effective_perms(), 1) && digit_lines > 0 {
         v.push(("display wrote although PRINT is forbidden".to_string(), format!("output {text:?}")));
     }
